@@ -227,14 +227,20 @@ def compare_state(envT, envA, mg, ids, consts, prob_conds=()):
         if n in consts and consts[n] != T[n].constant:
             bad.append(("constant", n, "constant flag changed to %s" % T[n].constant))
         ub = ultimate(a)
-        if ub is a:
+        # (NumPy can return the very array it was given - nothing to squeeze, atleast_1d of a 1-d array, ...: the twin then has two names
+        # for ONE object; the tensor created first owns the memory, a later, distinct Tensor object over the same array is a view of it)
+        owner = [m for m in TENSOR_NAMES if m in names and envA[m] is ub]
+        if ub is a and (owner[0] == n or T[n] is T[owner[0]]):
             if T[n].base is not None:
                 bad.append(("base", n, "owner of its memory but .base is not None"))
-        else:
-            owner = [m for m in names if envA[m] is ub]
-            if owner:
-                if T[n].base is not T[owner[0]]:
-                    bad.append(("base", n, ".base is not tensor %s" % owner[0]))
+        elif ub is a:
+            # a distinct Tensor over the very array of an earlier one: NumPy's .base says None, the tensor world may also call it a view
+            # of the earlier tensor; what must hold is checked below (the two keep sharing memory, values follow the twin)
+            if T[n].base is not None and T[n].base is not T[owner[0]]:
+                bad.append(("base", n, ".base is neither None nor tensor %s" % owner[0]))
+        elif owner:
+            if T[n].base is not T[owner[0]]:
+                bad.append(("base", n, ".base is not tensor %s" % owner[0]))
     for i, n in enumerate(names):
         for m in names[i + 1:]:
             sa = np.shares_memory(envA[n], envA[m])
